@@ -136,7 +136,7 @@ func related(tree *jsonv.Value, q doctree.Path, m *mutate.Mutant) (bool, string)
 			}
 			for _, e := range f[:len(f)-1] {
 				if strings.HasPrefix(e, "x-") {
-					in = "extension-" + e // anywhere below an extension value
+					in = "extension" // anywhere below an extension value (x-ogen-properties, x-oapi-codegen-extra-tags, ...)
 					break
 				}
 			}
@@ -606,7 +606,7 @@ func Main(args []string) int {
 								if ok, y := related(treeOf(c), q, c.mut); ok {
 									okRel = true
 									break
-								} else {
+								} else if why == "" || why == "unrelated" || (strings.HasPrefix(y, "enclosing-mapping") && !strings.HasPrefix(why, "enclosing-mapping")) {
 									why = y
 								}
 							}
@@ -653,7 +653,9 @@ func Main(args []string) int {
 						why = y
 						break
 					}
-					why = y
+					if why == "" || why == "unrelated" || (strings.HasPrefix(y, "enclosing-mapping") && !strings.HasPrefix(why, "enclosing-mapping")) {
+						why = y // the most specific reason among the candidates names the class
+					}
 				}
 				localRel[why]++
 				if !okRel {
